@@ -186,7 +186,8 @@ Proof.
   destruct d as [|x d'] eqn:Ed.
   - destruct Hne as [C| ->]; [contradiction C; reflexivity|]. reflexivity.
   - rewrite <- Ed in *. assert (Hlen : (0 < length d)%nat) by (rewrite Ed; cbn; lia).
-    destruct (Z.eqb_spec (Z.of_nat (length d)) 0); [lia|]. cbn [andb].
+    assert (Hz : (Z.of_nat (length d) =? 0) = false) by (apply Z.eqb_neq; lia).
+    rewrite Hz. rewrite ?andb_false_l, ?andb_false_r.
     cbv zeta. unfold g_bytes_index. rewrite bytes_index_agrees.
     destruct (find_hdr d) as [i|] eqn:Eh.
     + pose proof (Proofs.SplitProofs.find_hdr_bound d i Eh) as Hb.
@@ -287,4 +288,114 @@ Proof.
     + rewrite (g_slice_z m 4 (4 + Z.of_N L)) by lia. cbn [rbind]. f_equal. f_equal. lia.
     + replace (4 + Z.of_N L) with (Z.of_nat (4 + N.to_nat L)) by lia. change 4 with (Z.of_nat 4) at 1.
       rewrite g_slice_oob by lia. reflexivity.
+Qed.
+
+(* ---- NewMessage ---- *)
+Lemma g_set_nat s i v : (i < length s)%nat -> g_set s (Z.of_nat i) v = Val (upd s i (g_byte v)).
+Proof.
+  intros H. unfold g_set, g_len. destruct (Z.ltb_spec (Z.of_nat i) 0); [lia|].
+  destruct (Z.leb_spec (Z.of_nat (length s)) (Z.of_nat i)); [lia|]. cbn [orb]. rewrite Nat2Z.id. reflexivity.
+Qed.
+
+Lemma upd_app_r {A} (l1 l2 : list A) i x : upd (l1 ++ l2) (length l1 + i) x = l1 ++ upd l2 i x.
+Proof. induction l1 as [|a l1 IH]; [reflexivity|]. cbn [length app upd Nat.add]. rewrite IH. reflexivity. Qed.
+
+Lemma set_last l c : g_set (l ++ [0%N]) (g_len (l ++ [0%N]) - 1) c = Val (l ++ [g_byte c]).
+Proof.
+  unfold g_len. rewrite app_length. cbn [length].
+  replace (Z.of_nat (length l + 1) - 1) with (Z.of_nat (length l)) by lia.
+  rewrite g_set_nat by (rewrite app_length; cbn [length]; lia).
+  rewrite <- (Nat.add_0_r (length l)) at 1. rewrite upd_app_r. reflexivity.
+Qed.
+
+Lemma copy_body hdr p : g_copy (hdr ++ repeat 0%N (length p) ++ [0%N]) (Z.of_nat (length hdr)) p = Val (hdr ++ p ++ [0%N]).
+Proof.
+  unfold g_copy, g_len. rewrite !app_length, repeat_length. cbn [length].
+  destruct (Z.ltb_spec (Z.of_nat (length hdr)) 0); [lia|].
+  destruct (Z.ltb_spec (Z.of_nat (length hdr + (length p + 1))) (Z.of_nat (length hdr))); [lia|]. cbn [orb].
+  rewrite Nat2Z.id. replace (length hdr + (length p + 1) - length hdr)%nat with (length p + 1)%nat by lia.
+  rewrite Nat.min_l by lia. rewrite firstn_all. rewrite firstn_app, firstn_all, Nat.sub_diag. cbn [firstn]. rewrite app_nil_r.
+  rewrite skipn_app, skipn_all2 by lia. replace (length hdr + length p - length hdr)%nat with (length p) by lia.
+  rewrite skipn_app, skipn_all2 by (rewrite repeat_length; lia). rewrite repeat_length, Nat.sub_diag. reflexivity.
+Qed.
+
+Lemma sumb_snoc0 l : sumb (l ++ [0%N]) = sumb l.
+Proof.
+  unfold sumb. rewrite fold_left_app. cbn [fold_left]. rewrite N.add_0_r.
+  assert (H : forall l acc, (acc < 256)%N -> (fold_left (fun a b => ((a + b) mod 256)%N) l acc < 256)%N).
+  { clear. induction l as [|x l IH]; intros acc Ha; [exact Ha|]. cbn [fold_left]. apply IH. apply N.mod_lt. discriminate. }
+  apply N.mod_small. apply H. lia.
+Qed.
+
+Lemma sumb_lt l : (sumb l < 256)%N.
+Proof.
+  unfold sumb. assert (H : forall l acc, (acc < 256)%N -> (fold_left (fun a b => ((a + b) mod 256)%N) l acc < 256)%N).
+  { clear. induction l as [|x l IH]; intros acc Ha; [exact Ha|]. cbn [fold_left]. apply IH. apply N.mod_lt. discriminate. }
+  apply H. lia.
+Qed.
+
+Lemma checksum_byte cs : (cs < 256)%N ->
+  g_byte (wrap_u 8 (Z.land 255 (wrap_u 8 (- Z.of_N cs)))) = ((256 - cs) mod 256)%N.
+Proof.
+  intros H. unfold g_byte, wrap_u. change (2 ^ 8) with 256. change 255 with (Z.ones 8). rewrite Z.land_comm, Z.land_ones by lia.
+  change (2 ^ 8) with 256. lia.
+Qed.
+
+Lemma finish hdr p : hdr <> [] ->
+  (do v_message <- (do t3 <- (do t2 <- (do t1 <- g_Message_Checksum (hdr ++ p ++ [0%N]); Val (wrap_u 8 (- t1))); Val (wrap_u 8 (Z.land 255 t2)));
+                    g_set (hdr ++ p ++ [0%N]) (g_len (hdr ++ p ++ [0%N]) - 1) t3); Val v_message)
+  = Val ((hdr ++ p) ++ [((256 - sumb (tl (hdr ++ p))) mod 256)%N]).
+Proof.
+  intros Hh. rewrite checksum_agrees. cbn [rbind]. rewrite app_assoc. rewrite set_last. cbn [rbind].
+  f_equal. f_equal. f_equal. unfold checksum.
+  destruct hdr as [|a h']; [contradiction Hh; reflexivity|]. cbn [app tl].
+  rewrite sumb_snoc0. apply checksum_byte. apply sumb_lt.
+Qed.
+
+Theorem new_message_agrees mid p : 0 <= mid < 256 -> g_NewMessage mid p = Val (new_message (Z.to_N mid) p).
+Proof.
+  intros Hm. unfold g_NewMessage, new_message, g_len, min_ext, FA, FF. cbv zeta.
+  set (n := length p).
+  assert (Hmid : g_byte (wrap_u 8 mid) = Z.to_N mid) by (unfold g_byte, wrap_u; change (2 ^ 8) with 256; rewrite Z.mod_small by lia; reflexivity).
+  destruct (Z.leb_spec 255 (Z.of_nat n)) as [Hx|Hx]; destruct (N.leb_spec 255 (N.of_nat n)) as [Hy|Hy]; try lia.
+  - (* extended *)
+    unfold g_make. destruct (Z.ltb_spec (6 + Z.of_nat n + 1) 0); [lia|].
+    replace (Z.to_nat (6 + Z.of_nat n + 1)) with (6 + (n + 1))%nat by lia. cbn [Nat.add repeat rbind].
+    change 0 with (Z.of_nat 0) at 1. rewrite g_set_nat by (cbn [length]; lia). cbn [upd rbind].
+    change 1 with (Z.of_nat 1) at 1. rewrite g_set_nat by (cbn [length]; lia). cbn [upd rbind].
+    change 2 with (Z.of_nat 2) at 1. rewrite g_set_nat by (cbn [length]; lia). cbn [upd rbind].
+    change 3 with (Z.of_nat 3) at 1. rewrite g_set_nat by (cbn [length]; lia). cbn [upd rbind].
+    unfold g_put16, g_len. cbn [length]. destruct (Z.ltb_spec 4 0); [lia|].
+    match goal with |- context [(?a <? 4 + 2)] => destruct (Z.ltb_spec a (4 + 2)); [lia|] end. cbn [orb rbind].
+    change (Z.to_nat 4) with 4%nat. cbn [upd Nat.add].
+    rewrite Hmid. change (g_byte 250) with 250%N. change (g_byte 255) with 255%N.
+    set (hi := g_byte (wrap_u 16 (Z.of_nat n) / 256 mod 256)). set (lo := g_byte (wrap_u 16 (Z.of_nat n) mod 256)).
+    assert (Hrep : repeat 0%N (n + 1) = repeat 0%N (length p) ++ [0%N]).
+    { fold n. rewrite repeat_app. reflexivity. }
+    rewrite Hrep.
+    change (250 :: 255 :: Z.to_N mid :: 255 :: hi :: lo :: repeat 0 (length p) ++ [0])%N
+      with ([250; 255; Z.to_N mid; 255; hi; lo] ++ repeat 0 (length p) ++ [0])%N.
+    change 6 with (Z.of_nat (length [250; 255; Z.to_N mid; 255; hi; lo]%N)) at 1.
+    rewrite copy_body. cbn [rbind]. rewrite finish by discriminate.
+    assert (Hhi : hi = ((N.of_nat n / 256) mod 256)%N) by (unfold hi, g_byte, wrap_u; change (2 ^ 16) with 65536; lia).
+    assert (Hlo : lo = (N.of_nat n mod 256)%N) by (unfold lo, g_byte, wrap_u; change (2 ^ 16) with 65536; lia).
+    rewrite Hhi, Hlo. reflexivity.
+  - (* standard *)
+    unfold g_make. destruct (Z.ltb_spec (4 + Z.of_nat n + 1) 0); [lia|].
+    replace (Z.to_nat (4 + Z.of_nat n + 1)) with (4 + (n + 1))%nat by lia. cbn [Nat.add repeat rbind].
+    change 0 with (Z.of_nat 0) at 1. rewrite g_set_nat by (cbn [length]; lia). cbn [upd rbind].
+    change 1 with (Z.of_nat 1) at 1. rewrite g_set_nat by (cbn [length]; lia). cbn [upd rbind].
+    change 2 with (Z.of_nat 2) at 1. rewrite g_set_nat by (cbn [length]; lia). cbn [upd rbind].
+    change 3 with (Z.of_nat 3) at 1. rewrite g_set_nat by (cbn [length]; lia). cbn [upd rbind].
+    rewrite Hmid. change (g_byte 250) with 250%N. change (g_byte 255) with 255%N.
+    set (ln := g_byte (wrap_u 8 (Z.of_nat n))).
+    assert (Hrep : repeat 0%N (n + 1) = repeat 0%N (length p) ++ [0%N]).
+    { fold n. rewrite repeat_app. reflexivity. }
+    rewrite Hrep.
+    change (250 :: 255 :: Z.to_N mid :: ln :: repeat 0 (length p) ++ [0])%N
+      with ([250; 255; Z.to_N mid; ln] ++ repeat 0 (length p) ++ [0])%N.
+    change 4 with (Z.of_nat (length [250; 255; Z.to_N mid; ln]%N)) at 1.
+    rewrite copy_body. cbn [rbind]. rewrite finish by discriminate.
+    assert (Hln : ln = N.of_nat n) by (unfold ln, g_byte, wrap_u; change (2 ^ 8) with 256; lia).
+    rewrite Hln. reflexivity.
 Qed.
